@@ -35,6 +35,28 @@ def view_of(body, be):
     return out
 
 
+def scribble(body, be):
+    """overwrite, in place, everything the body holds (coordinates, mask, confidences): a copy that shares memory with it changes too"""
+    try:
+        if be == "numpy":
+            d = body.data
+            ma.getdata(d)[...] = 777.0
+            m = ma.getmaskarray(d)
+            if d.mask is not ma.nomask:
+                d.mask[...] = ~m
+            np.asarray(body.confidence)[...] = 0.125
+        elif be == "torch":
+            d = body.data
+            if hasattr(d, "mask"):
+                d.tensor.fill_(777.0)
+                d.mask.copy_(~d.mask.bool()) if d.mask.dtype == __import__("torch").bool else d.mask.fill_(0)
+            else:
+                d.fill_(777.0)
+            body.confidence.fill_(0.125)
+    except Exception:
+        pass                                         # read-only buffers cannot be scribbled on, and then they cannot leak either
+
+
 def read_body(raw_hex, be, route):
     from pose_format import Pose
     from pose_format.pose_header import PoseHeaderCache
@@ -65,7 +87,10 @@ def run_case(case, be):
             elif k == "select_frames": body = body.select_frames(op["ixs"])
             elif k == "slice_step": body = body.slice_step(op["by"])
             elif k == "zero_filled": body = body.zero_filled()
-            elif k == "copy": body = body.copy()
+            elif k == "copy":
+                orig = body
+                body = orig.copy()
+                scribble(orig, be)                       # the copy must not notice what happens to the original afterwards
             elif k == "matmul": body = body.matmul(np.array([[bits_f64(x) for x in r] for r in op["m"]], dtype=np.float32))
             elif k == "flatten":
                 fl = body.flatten()
